@@ -17,7 +17,7 @@ ASSUMPTIONS = [
     "readers of a generation are cancelled and joined (unsubscribe) before the member rejoins (Generation.close waits for the functions started with gen.Start); the edge case 'generation already closed when Reader.run calls gen.Start' (unaccounted goroutines) is outside the model",
     "offsets < 2^63-1 (offset+1 does not wrap); StartOffset is FirstOffset or LastOffset (ConsumerGroupConfig.Validate)",
     "delivered-before-covered is proved for StartOffset = FirstOffset; for LastOffset it is REFUTED (theorem C03_delivered_before_covered_lastoffset_refuted, replayed on the real Reader on every run: failure key C03-lastoffset-skips-records)",
-    "session time-outs, heartbeats and back-off sleeps are environment labels, not clocks; quiescence/liveness (C03_quiescent_all_delivered) is stated, not proved",
+    "session time-outs, heartbeats and back-off sleeps are environment labels, not clocks; quiescence/liveness (C03_quiescent_all_delivered) is stated, not proved: it is TESTED on the real Readers (eviction and commit-answer scenarios: a new generation is reached, every stored record is delivered, an interval-mode stash survives a rejected commit) under watchdogs of 6-8 s, each stall confirmed by one re-run alone",
 ]
 
 KEY_LASTOFFSET = "C03-lastoffset-skips-records"
@@ -27,8 +27,20 @@ def classify(c):
     """A go/model disagreement: does the implementation's output itself violate C03?"""
     op, go, model = c["op"], c["go"], str(c.get("model"))
     if op == "hist":
+        once = "stalled-once-ok-alone" in c["feats"]
         if go == "HANG":
-            return dict(layer="correspondence", what="end-to-end scenario hit the watchdog (no history to check)", input=None)
+            return dict(layer="property", key=None,
+                        what="end-to-end scenario hung: the group Readers did not finish within the 60 s watchdog"
+                             + (" (also when re-run alone with the same seed)" if "confirmed-alone" in c["feats"] else ""), input=c)
+        if go.startswith("NILNOTRECORDED"):
+            return dict(layer="property",
+                        what="wire level: a synchronous CommitMessages returned nil although the coordinator answered every OffsetCommit with an error code and recorded nothing ("
+                             + go.partition(":")[2] + "; Conn.offsetCommit -> Generation.CommitOffsets -> commitLoopImmediate)", input=c)
+        if go.startswith("STALLED"):
+            return dict(layer="property",
+                        what="liveness (quiescence clause): " + go.partition(":")[2]
+                             + (" — confirmed by a re-run alone with the same seed" if "confirmed-alone" in c["feats"] else " — not re-run (breaker)"),
+                        input=c)
         if model == "LOST":
             k = KEY_LASTOFFSET if "lastoffset" in c["feats"] else None
             return dict(layer="property", key=k,
@@ -122,6 +134,10 @@ def correspondence(ctx):
     # the refutation must be reproduced on the implementation on every run
     if not any(c["op"] == "hist" and "lastoffset-replay" in c["feats"] for c in cases):
         failures.append(dict(layer="correspondence", what="the LastOffset replay scenario did not run", detail="", input=None))
+    notes = []
+    once = [c for c in cases if "stalled-once-ok-alone" in c["feats"]]
+    if once:
+        notes.append(f"{len(once)} scenario(s) stalled once and completed normally when re-run alone with the same seed (machine load), not reported")
     ev, dn, hist = L.coverage_counts(cases, trivial_feats=TRIVIAL)
     nh = [c for c in cases if c["op"] == "hist"]
     events = sum(len(c["args"].split(" ")) - 2 for c in nh)
@@ -130,12 +146,15 @@ def correspondence(ctx):
                      "(committed / none / negative / omitted partitions, First/LastOffset); 'loop' = the real commitLoopImmediate/Interval + CommitMessages + "
                      "commitOffsetsWithRetry against scripted coordinator answers (ok, error codes 15/16/22/25/27, connection error, Reader stop during back-off), "
                      "compared with the model's run of the same label sequence; 'hist' = 1-3 real group Readers (sync and interval commits, 1-2 topics, 1-3 partitions) "
-                     "on the wire-level fake broker with forced rebalances, evictions, members joining/leaving, error codes and dropped connections on "
-                     "join/sync/heartbeat/offset-fetch/offset-commit, stale commits; the globally sequenced history is checked by the extracted C03_holds/lost_b; "
+                     "on the wire-level fake broker (the coordinator connection is the real *Conn) with forced rebalances, evictions, members joining/leaving, error codes and dropped connections on "
+                     "join/sync/heartbeat/offset-fetch/offset-commit, stale commits; 16 scripted 'wire-commit-codes' scenarios (OffsetCommit answers with each of 0,-1,1,16,22,25,27,32767 on every partition, "
+                     "sync: nil implies recorded; interval: the stash survives and a later tick records) and 6 'evict-liveness' scenarios (UnknownMemberId on heartbeat and on the JoinGroup with the stale id; "
+                     "the member must reach a new generation and every stored record be delivered within 8 s; a stall is re-run once alone, three-strikes breaker); "
+                     "the globally sequenced history is checked by the extracted C03_holds/lost_b; "
                      "'mrun' = random label sequences run on the model and checked by the same predicate; a case is non-trivial when it has a feature tag beyond the mode; "
                      f"{len(nh)} histories with {events} events in this run",
                 samples=[c["line"][:300] + " | " + c["go"][:100] for c in cases[:2] + [c for c in cases if c["op"] == "loop"][:2] + nh[:3]],
-                failures=failures)
+                notes=notes, failures=failures)
 
 
 def search(ctx, violations):
